@@ -26,7 +26,7 @@ Is(e) == l <= NLog /\ Ev.e = e /\ l' = l + 1
 S(seq) == SeqToSet(seq)
 
 (* which case split a failing case sits on (for the violation key) *)
-TriTag(f) == IF "near" \in f THEN "near" ELSE IF "seam" \in f THEN "seam"
+TriTag(f) == IF "seam" \in f THEN "seam" ELSE IF "near" \in f THEN "near"
              ELSE IF "antipodal" \in f THEN "antipodal" ELSE IF "bound" \in f THEN "bound" ELSE "generic"
 PairTag(f) == IF "near" \in f THEN "near" ELSE IF "bound" \in f THEN "bound"
               ELSE IF "seam" \in f THEN "seam" ELSE IF "antipodal" \in f THEN "antipodal" ELSE "generic"
